@@ -31,6 +31,7 @@ MANIFEST = dict(
 FINDING_KEY = "F-C15-unlink: clean stop between another start's open(lock) and F_SETLK"
 TRACE = "trace=%file,bind,listen,fcntl,close,unlink,unlinkat,openat,socket,rename"
 INJECT_SET = "openat,unlink,bind,listen,fcntl,close,socket"
+PHASE = {"up": "start-up", "down": "shutdown", "serve": "service"}
 
 
 # ---------------------------------------------------------------------------------------------------
@@ -322,7 +323,7 @@ def abstract_trace(text, D, main_pid=None):
         elif sc == "listen":
             if fd is not None and fd == sockfd:
                 toks.append("listen" if ok else "listen!")
-        elif sc in ("newfstatat", "fstat"):
+        elif sc in ("newfstatat", "fstat") and not paths:
             if fd is not None and fd == lockfd and (sc == "fstat" or '""' in args):
                 toks.append("fstat_lock")
                 mm = re.search(r"st_mode=(\w+)\|(0[0-7]+)", args)
@@ -346,6 +347,10 @@ def abstract_trace(text, D, main_pid=None):
                 toks.append("close_sock")
                 sockfd = None
         elif sc in READONLY:
+            # look-ups of the lock *path* after the lock file was opened are part of the protocol (a
+            # re-verification of the name); the unchanged code has none
+            if "lock" in paths and ("open_lock" in toks):
+                toks.append("stat:lock")
             continue
     return toks, det, main_pid
 
@@ -387,24 +392,54 @@ def tail(path, n=600):
 # ---------------------------------------------------------------------------------------------------
 # (b) live scenarios
 # ---------------------------------------------------------------------------------------------------
-def start_many(D, exe, k, delays, foreground=False):
+def start_many(D, exe, k, delays):
     """k start commands released together (barrier = EOF on a shared pipe).  delays[i] = None or a dict
-    syscall -> microseconds (strace delay_enter on that process's calls) to shuffle the interleaving."""
+    syscall -> microseconds (strace delay_enter on that process's calls) to shuffle the interleaving.
+    Undelayed racers daemonize (the start command returns 0 / non-0); delayed ones run in the foreground under
+    strace (strace -f would otherwise wait for the daemonized grandchild) and count as started when still
+    alive after the race has settled."""
     r, w = os.pipe()
-    os.set_inheritable(r, True)
     procs = []
     for i in range(k):
-        argv = D.argv(exe, foreground=foreground)
-        if delays and delays[i]:
+        delayed = bool(delays and delays[i])
+        argv = D.argv(exe, foreground=delayed)
+        if delayed:
             pre = ["strace", "-f", "-o", "/dev/null", "-e", "trace=" + ",".join(sorted(delays[i]))]
             for sc, us in sorted(delays[i].items()):
                 pre += ["-e", "inject=%s:delay_enter=%d" % (sc, us)]
             argv = pre + argv
-        procs.append(popen(D, argv, pass_fds=(r,), preexec_fn=lambda: os.read(r, 1)))
+        # the barrier is a shell that blocks reading the shared pipe and then execs the start command
+        argv = ["sh", "-c", 'read x; exec "$@" </dev/null', "sh"] + argv
+        procs.append((popen(D, argv, stdin=r), delayed))
     os.close(r)
     time.sleep(0.05)
     os.close(w)          # release
     return procs
+
+
+def settle(D, procs, timeout=15.0):
+    """wait until every start command has returned or is the (foreground) survivor; returns outcome per racer:
+    0 = started, non-0 = exit code of a failed start"""
+    t0 = time.time()
+    while time.time() - t0 < timeout:
+        running = [p for p, fg in procs if p.poll() is None]
+        if not running:
+            break
+        if all(fg for p, fg in procs if p.poll() is None) and len(running) <= 1 and \
+                os.path.exists(D.pid) and canary(D.sock) is None:
+            # a single foreground racer is left and the socket is served: give a loser no more time than this
+            time.sleep(0.2)
+            if len([p for p, fg in procs if p.poll() is None]) <= 1:
+                break
+        time.sleep(0.02)
+    out = []
+    for p, fg in procs:
+        rc = p.poll()
+        if rc is None:
+            out.append(0 if fg else "timeout")
+        else:
+            out.append(rc if rc != 0 or not fg else "exited-0-in-foreground")
+    return out
 
 
 def check_serving_state(D, what):
@@ -422,6 +457,9 @@ def check_serving_state(D, what):
     if ps and snap["lock_holder"] not in ps:
         bad.append("%s: lock file is held by %s, live daemon is %s" % (what, snap["lock_holder"], ps))
     c = canary(D.sock)
+    if c and ps:
+        time.sleep(0.3)          # one retry: the machine may be heavily loaded
+        c = canary(D.sock)
     if c:
         bad.append("%s: canary request failed: %s" % (what, c))
     return bad, snap, ps
@@ -435,13 +473,7 @@ def scenario_race(ctx, exe, spec):
     try:
         k = spec["k"]
         procs = start_many(D, exe, k, spec.get("delays"))
-        codes = []
-        for p in procs:
-            try:
-                codes.append(p.wait(timeout=15))
-            except subprocess.TimeoutExpired:
-                p.kill()
-                codes.append("timeout")
+        codes = settle(D, procs)
         facts["exit_codes"] = codes
         ok = [c for c in codes if c == 0]
         if len(ok) != 1:
@@ -521,8 +553,10 @@ def scenario_loser_trace(ctx, exe, tag):
 # (c) crash points
 # ---------------------------------------------------------------------------------------------------
 def calibrate(ctx, exe):
-    """one life under strace with exactly the injectable syscall set; returns the 1-based indices (per the
-    main process) of the calls that belong to start-up and to shutdown steps on the names"""
+    """one life under strace with the injectable syscall set.  strace's inject `when=K` counts per syscall and
+    per tracee, so a kill point is (syscall, K-th invocation by the main process).  Returns the kill points
+    spanning start-up (from the open of the lock file to one call past the pid-file write) and shutdown (from
+    the unlink of the socket to one call past the unlink of the pid file)."""
     D = Dir(ctx, "cal")
     out = os.path.join(D.d, "tr")
     p = popen(D, ["strace", "-f", "-o", out, "-e", "trace=" + INJECT_SET] + D.argv(exe))
@@ -534,29 +568,30 @@ def calibrate(ctx, exe):
         p.wait(timeout=8)
         lines = open(out).read().splitlines()
         main = int(lines[0].split()[0])
-        idx = 0
-        first_up = last_up = first_down = last_down = None
+        calls = []          # (phase, syscall, ordinal, on_name)
+        ords = {}
         phase = "up"
         for l in lines:
-            m = re.match(r"^(\d+)\s+(\w+)\((.*)$", l)
+            if not l.startswith("%d " % main):
+                continue
+            if "--- SIGTERM" in l:
+                phase = "down"
+                continue
+            m = re.match(r"^\d+\s+(\w+)\(", l)
             if not m:
-                if l.startswith("%d " % main) and "--- SIGTERM" in l:
-                    phase = "down"
                 continue
-            if int(m.group(1)) != main:
-                continue
-            if "<unfinished" in l and False:
-                continue
-            idx += 1
-            onname = any(p_ in l for p_ in (D.lock, D.sock, D.pid, D.seed))
-            if onname or m.group(2) in ("bind", "listen", "fcntl"):
-                if phase == "up":
-                    first_up = first_up or idx
-                    last_up = idx
-                else:
-                    first_down = first_down or idx
-                    last_down = idx
-        return {"up": (first_up, last_up + 2), "down": (first_down, last_down + 2), "total": idx}
+            sc = m.group(1)
+            ords[sc] = ords.get(sc, 0) + 1
+            onname = any(p_ in l for p_ in (D.lock, D.sock, D.pid, D.seed)) and "O_RDONLY" not in l
+            calls.append((phase, sc, ords[sc], onname or sc in ("listen", "fcntl")))
+        res = {}
+        for ph in ("up", "down"):
+            idx = [i for i, c in enumerate(calls) if c[0] == ph and c[3]]
+            if not idx:
+                return None
+            lo, hi = idx[0], min(idx[-1] + 1, len(calls) - 1)
+            res[ph] = [(calls[i][1], calls[i][2]) for i in range(lo, hi + 1) if calls[i][0] == ph]
+        return res
     finally:
         if p.poll() is None:
             p.kill()
@@ -564,7 +599,8 @@ def calibrate(ctx, exe):
 
 
 def scenario_crash(ctx, exe, spec):
-    """spec: tag, phase ('up'|'down'|'serve'), n (syscall index for inject when=n).  Kill, then plain restart."""
+    """spec: tag, phase ('up'|'down'|'serve'), sc, n (kill on entering the n-th invocation of syscall sc by the
+    daemon).  Kill, then plain restart without --force."""
     D = Dir(ctx, spec["tag"])
     fails = []
     try:
@@ -575,22 +611,22 @@ def scenario_crash(ctx, exe, spec):
             os.kill(a.pid, signal.SIGKILL)
             a.wait()
         else:
-            a = popen(D, ["strace", "-f", "-o", "/dev/null", "-e", "trace=" + INJECT_SET, "-e",
-                          "inject=%s:signal=KILL:when=%d" % (INJECT_SET, spec["n"])] + D.argv(exe))
-            if spec["phase"] == "down":
-                if not wait_serving(D):
-                    if a.poll() is None:
-                        return ["daemon under strace did not reach service: " + tail(D.log, 300)], {}
-                else:
+            a = popen(D, ["strace", "-f", "-o", "/dev/null", "-e", "trace=" + spec["sc"], "-e",
+                          "inject=%s:signal=KILL:when=%d" % (spec["sc"], spec["n"])] + D.argv(exe))
+            reached = wait_for(lambda: a.poll() is not None or (os.path.exists(D.pid) and canary(D.sock) is None), 6.0)
+            if a.poll() is None:
+                if spec["phase"] == "down":
                     for q in D.procs():
                         os.kill(q, signal.SIGTERM)
-            try:
-                a.wait(timeout=8)
-            except subprocess.TimeoutExpired:
-                # the injected call was never reached: kill it where it is (also a crash point)
-                D.killall()
-                a.kill()
-                a.wait()
+                    try:
+                        a.wait(timeout=8)
+                    except subprocess.TimeoutExpired:
+                        pass
+                # an "up" point that was not reached before service, or a stuck stop: kill it where it is
+                if a.poll() is None:
+                    D.killall()
+                    a.kill()
+                    a.wait()
         D.killall()
         left = {n: (v is not None) for n, v in D.snapshot().items() if n in ("lock", "sock", "pid", "seed")}
         # plain restart without --force
@@ -601,11 +637,12 @@ def scenario_crash(ctx, exe, spec):
             b.kill()
             rc = "timeout"
         if rc != 0:
-            fails.append("after SIGKILL at %s syscall #%s (files left: %s) a start without --force failed (exit %s): %s"
-                         % (spec["phase"], spec.get("n"), left, rc, tail(D.log, 300)))
+            fails.append("after SIGKILL on entering %s #%s of %s (files left: %s) a start without --force failed "
+                         "(exit %s): %s" % (spec.get("sc"), spec.get("n"), PHASE[spec["phase"]], left, rc, tail(D.log, 300)))
         else:
             wait_serving(D, 3.0)
-            bad, _, _ = check_serving_state(D, "restart after SIGKILL at %s #%s" % (spec["phase"], spec.get("n")))
+            bad, _, _ = check_serving_state(D, "restart after SIGKILL on entering %s #%s of %s"
+                                            % (spec.get("sc"), spec.get("n"), PHASE[spec["phase"]]))
             fails += bad
         return fails, {"left": left}
     finally:
@@ -660,46 +697,162 @@ def scenario_overlap(ctx, exe, tag):
 # ---------------------------------------------------------------------------------------------------
 # model-side checks through the oracle
 # ---------------------------------------------------------------------------------------------------
-def model_schedules(ctx, oracle, n):
-    """random interleavings of k starts with SIGKILLs through the extracted model; the conclusions of the
-    theorems are re-evaluated in Python on the oracle's observations (extraction/driver sanity) and the
-    shape of complete races (exactly one running/8, the others failed/2) is what the live races must show"""
+class RefSim:
+    """Independent Python reference of the step semantics, run over a program given as tokens (the abstracted
+    strace of the real daemon when available).  Used to generate only-enabled random schedules, to evaluate the
+    property's conclusions on them, and as a second opinion on the extracted Coq model (same observations)."""
+    ST = ("notstarted", "running", "failed", "exited", "killed")
+
+    def __init__(self, prog, k):
+        self.prog = prog
+        self.names = {"lock": None, "sock": None, "pid": None, "seed": None}
+        self.lockown, self.listener, self.content = {}, {}, {}
+        self.next = 0
+        self.p = [dict(st=0, pc=0, lockfd=None, sockfd=None) for _ in range(k)]
+
+    def alloc(self, n):
+        i = self.next
+        self.next += 1
+        self.names[n] = i
+        return i
+
+    def die(self, q, how):
+        self.lockown = {i: w for i, w in self.lockown.items() if w != q}
+        self.listener = {i: w for i, w in self.listener.items() if w != q}
+        self.p[q].update(st=how, lockfd=None, sockfd=None)
+
+    def enabled(self, lab):
+        kind, q = lab[0], int(lab[1:])
+        pr = self.p[q]
+        tok = self.prog[pr["pc"]] if pr["pc"] < len(self.prog) else None
+        if kind == "s":
+            return pr["st"] in (0, 1) and tok is not None and tok != "serve"
+        if kind == "c":
+            return pr["st"] == 1
+        return pr["st"] == 1 and tok == "serve"
+
+    def step(self, lab):
+        kind, q = lab[0], int(lab[1:])
+        pr = self.p[q]
+        if kind == "c":
+            return self.die(q, 4)
+        if kind == "t":
+            pr["pc"] += 1
+            return
+        tok = self.prog[pr["pc"]]
+        fail = False
+        if tok == "open_lock":
+            pr["lockfd"] = self.names["lock"] if self.names["lock"] is not None else self.alloc("lock")
+        elif tok == "fstat_lock":
+            fail = pr["lockfd"] is None
+        elif tok == "setlk":
+            i = pr["lockfd"]
+            if i is None or self.lockown.get(i, q) != q:
+                fail = True
+            else:
+                self.lockown[i] = q
+        elif tok.startswith("unlink:"):
+            self.names[tok[7:]] = None
+        elif tok == "bind":
+            if self.names["sock"] is not None:
+                fail = True
+            else:
+                pr["sockfd"] = self.alloc("sock")
+        elif tok == "listen":
+            if pr["sockfd"] is None:
+                fail = True
+            else:
+                self.listener[pr["sockfd"]] = q
+        elif tok == "write_pid":
+            f = self.names["pid"] if self.names["pid"] is not None else self.alloc("pid")
+            self.content[f] = q
+        elif tok == "close_sock":
+            if pr["sockfd"] is not None and self.listener.get(pr["sockfd"]) == q:
+                del self.listener[pr["sockfd"]]
+            pr["sockfd"] = None
+        elif tok == "close_lock":
+            if pr["lockfd"] is not None and self.lockown.get(pr["lockfd"]) == q:
+                del self.lockown[pr["lockfd"]]
+            pr["lockfd"] = None
+        elif tok == "write_seed":
+            if self.names["seed"] is None:
+                self.alloc("seed")
+        elif tok == "exit":
+            return self.die(q, 3)
+        else:
+            raise ValueError("token %r" % tok)
+        if fail:
+            return self.die(q, 2)
+        pr["st"] = 1
+        pr["pc"] += 1
+
+    def serving(self, q):
+        pr, nm = self.p[q], self.names
+        return (pr["st"] == 1 and pr["pc"] < len(self.prog) and self.prog[pr["pc"]] == "serve"
+                and nm["lock"] is not None and self.lockown.get(nm["lock"]) == q and pr["lockfd"] == nm["lock"]
+                and nm["sock"] is not None and self.listener.get(nm["sock"]) == q and pr["sockfd"] == nm["sock"]
+                and nm["pid"] is not None and self.content.get(nm["pid"]) == q)
+
+    def obs(self):
+        o = lambda v: "-" if v is None else str(v)
+        procs = " ".join("%s/%d/%d" % (self.ST[pr["st"]], pr["pc"], self.serving(q)) for q, pr in enumerate(self.p))
+        nm = self.names
+        names = " ".join("%s=%s" % (n, o(nm[n])) for n in ("lock", "sock", "pid", "seed"))
+        return "R %s | %s | pidfile=%s listener=%s lockholder=%s" % (
+            procs, names, o(self.content.get(nm["pid"])), o(self.listener.get(nm["sock"])), o(self.lockown.get(nm["lock"])))
+
+
+def model_schedules(ctx, oracle, prog, n):
+    """random only-enabled schedules (starts, SIGKILLs; a third of them also clean stops) of 2..8 processes:
+    the property's conclusions evaluated on the reference simulation, and the extracted Coq model's observation
+    compared with the reference's line by line"""
     rng = ctx.rng
-    lines = []
-    for _ in range(n):
+    lines, want, bad = [], [], []
+    stats = {"no_term": 0, "with_term": 0, "two_past_setlk_with_term": 0, "complete_races_one_survivor": 0}
+    setlk_pc = prog.index("setlk") + 1 if "setlk" in prog else 3
+    for it in range(n):
         k = rng.randrange(2, 9)
-        pend = {p: 8 for p in range(k)}
+        with_term = (it % 3 == 2)
+        sim = RefSim(prog, k)
         toks = []
-        alive = set(range(k))
-        while alive:
-            p = rng.choice(sorted(alive))
-            if rng.random() < 0.04:
-                if pend[p] < 8:
-                    toks.append("c%d" % p)
-                    alive.discard(p)
-                    continue
-            toks.append("s%d" % p)
-            pend[p] -= 1
-            if pend[p] == 0:
-                alive.discard(p)
+        complete = (it % 3 == 0)
+        for _ in range(len(prog) * k + 1 if complete else rng.randrange(4, 14 * k)):
+            labs = ["s%d" % q for q in range(k)] * 6 + ([] if complete else ["c%d" % q for q in range(k)])
+            if with_term:
+                labs += ["t%d" % q for q in range(k)] * 3
+            labs = [l for l in labs if sim.enabled(l)]
+            if not labs:
+                break
+            l = rng.choice(labs)
+            sim.step(l)
+            toks.append(l)
+            past = [q for q, pr in enumerate(sim.p) if pr["st"] == 1 and pr["pc"] >= setlk_pc]
+            atserve = [q for q, pr in enumerate(sim.p) if pr["st"] == 1 and pr["pc"] < len(prog) and prog[pr["pc"]] == "serve"]
+            if not with_term:
+                if len(past) > 1:
+                    bad.append((" ".join(toks), "two live processes past F_SETLK: %s" % past))
+                    break
+                if any(not sim.serving(q) for q in atserve):
+                    bad.append((" ".join(toks), "a daemon at service that the names do not lead to"))
+                    break
+            elif len(past) > 1:
+                stats["two_past_setlk_with_term"] += 1
+                break
+        stats["with_term" if with_term else "no_term"] += 1
+        if not with_term and not any(t[0] == "c" for t in toks) and all(not sim.enabled("s%d" % q) for q in range(k)):
+            if sum(1 for q in range(k) if sim.serving(q)) == 1:
+                stats["complete_races_one_survivor"] += 1
+            else:
+                bad.append((" ".join(toks), "a complete race without kills did not end with exactly one daemon"))
         lines.append("R %d %s" % (k, " ".join(toks)))
+        want.append(sim.obs())
     rc, out, err = vlib.run_lines([oracle], lines, timeout=300)
-    bad = []
-    shapes = {}
-    for l, o in zip(lines, out):
+    mism = [(l, a, b) for l, a, b in zip(lines, out, want) if a != b]
+    if rc != 0 or len(out) != len(lines):
+        mism.append(("oracle run", "rc=%d" % rc, err[-200:]))
+    for l in lines:
         ctx.count(l)
-        if o.startswith("R blocked"):
-            # a step of a process that already failed/was killed: the schedule generator does not know who loses
-            continue
-        procs = o[2:].split(" | ")[0].split()
-        past = [x for x in procs if x.startswith("running/") and int(x.split("/")[1]) >= 3]
-        srv = [x for x in procs if x.endswith("/1")]
-        if len(past) > 1:
-            bad.append((l, o, "two processes past F_SETLK in the model"))
-        if any(x.startswith("running/8/0") for x in procs):
-            bad.append((l, o, "model daemon at service that the names do not lead to"))
-        shapes[(len(past), len(srv))] = shapes.get((len(past), len(srv)), 0) + 1
-    return lines, out, bad, shapes
+    return lines, bad, mism, stats
 
 
 # ---------------------------------------------------------------------------------------------------
@@ -764,6 +917,7 @@ def _run_live(ctx, exe, oracle, concrete, corr):
             prog, facts = out[0].split()[1:], out[1]
     if prog is None:
         corr.append(("the start oracle could not be built or run", {"obligation": "oracle start"}))
+    live_prog = None
     # ---- (a) trace equivalence
     if replay is None or replay.get("scenario") in (None, "trace"):
         toks, det, text = strace_life(ctx, exe, "life")
@@ -772,6 +926,9 @@ def _run_live(ctx, exe, oracle, concrete, corr):
                              {"scenario": "trace", "detail": det}))
         else:
             ctx.count(("trace", tuple(toks)))
+            known = set(prog or []) | {"serve", "exit"}
+            if all(t in known or t.startswith("unlink:") for t in toks) and "serve" in toks and toks[-1] == "exit":
+                live_prog = toks
             ctx.sample({"strace_abstract": " ".join(toks)})
             dist["trace"] = dist.get("trace", 0) + 1
             if prog is not None and toks != prog:
@@ -808,20 +965,30 @@ def _run_live(ctx, exe, oracle, concrete, corr):
                              % (" ".join(ltoks), " ".join(want)),
                              {"obligation": "correspondence loser trace", "scenario": "trace", "daemon": ltoks}))
     ctx.log("trace equivalence done: %d correspondence breaks" % len(corr))
-    # ---- model schedules
-    if oracle and replay is None:
-        lines, out, bad, shapes = model_schedules(ctx, oracle, 3000 if ctx.thorough else 600)
+    # ---- model schedules: reference simulation over the daemon's own abstract trace vs the extracted model
+    if oracle and replay is None and prog is not None:
+        sim_prog = live_prog if live_prog else prog
+        lines, bad, mism, stats = model_schedules(ctx, oracle, sim_prog, 20000 if ctx.thorough else 1500)
         dist["model_schedules"] = len(lines)
-        ctx.cov["model_outcome_shapes(past_setlk,serving)"] = {str(k): v for k, v in shapes.items()}
-        for l, o, why in bad[:1]:
-            corr.append(("extracted model violates its own theorem: %s on %s -> %s" % (why, l, o),
-                         {"obligation": "extraction sanity", "case_line": l}))
+        ctx.cov["model_schedule_stats"] = stats
+        ctx.cov["traces_validated_against_impl"] = len(lines) - len(mism)
+        if lines:
+            ctx.sample({"schedule": lines[0]})
+        for sched, why in bad[:1]:
+            corr.append(("with the daemon's observed system-call order the property fails in the reference "
+                         "simulation: %s after schedule [%s]" % (why, sched),
+                         {"obligation": "reference simulation of the observed program", "schedule": sched,
+                          "program": sim_prog}))
+        for l, a, b in mism[:1]:
+            corr.append(("extracted model and reference simulation of the daemon's trace disagree on %s: %s vs %s"
+                         % (l, a, b), {"obligation": "correspondence StartModel ~ reference simulation",
+                                       "case_line": l, "model": a, "reference": b}))
     # ---- (b) races
     specs = []
     if replay and replay.get("scenario") == "race":
         specs = [dict(replay["spec"], tag="rp%d" % i) for i in range(12)]
     elif replay is None:
-        nrace = 40 if ctx.thorough else 14
+        nrace = 150 if ctx.thorough else 14
         for i in range(nrace):
             k = 2 + (i % 7)
             delays = None
@@ -857,35 +1024,35 @@ def _run_live(ctx, exe, oracle, concrete, corr):
         cspecs = [dict(replay["spec"], tag="cp%d" % i) for i in range(3)]
     elif replay is None:
         cal = calibrate(ctx, exe)
-        if cal is None or None in cal["up"] or None in cal["down"]:
-            concrete.append(("calibration run (start, SIGTERM) under strace failed", {"scenario": "crash", "cal": cal}))
+        if cal is None:
+            concrete.append(("calibration run (start, SIGTERM) under strace failed", {"scenario": "crash"}))
         else:
-            ctx.cov["crash_syscall_ranges"] = cal
-            up = list(range(cal["up"][0], cal["up"][1]))
-            down = list(range(cal["down"][0], cal["down"][1]))
+            ctx.cov["crash_kill_points"] = {k: ["%s#%d" % x for x in v] for k, v in cal.items()}
+            up, down = cal["up"], cal["down"]
             if not ctx.thorough:
                 off = rng.randrange(2)
                 up = up[off::2]
                 down = down[off::2]
-            for n in up:
-                cspecs.append({"tag": "cu%d" % n, "phase": "up", "n": n})
-            for n in down:
-                cspecs.append({"tag": "cd%d" % n, "phase": "down", "n": n})
-            cspecs.append({"tag": "cs", "phase": "serve", "n": None})
+            for sc, n in up:
+                cspecs.append({"tag": "cu-%s%d" % (sc, n), "phase": "up", "sc": sc, "n": n})
+            for sc, n in down:
+                cspecs.append({"tag": "cd-%s%d" % (sc, n), "phase": "down", "sc": sc, "n": n})
+            cspecs.append({"tag": "cs", "phase": "serve", "sc": None, "n": None})
     if cspecs:
         with ThreadPoolExecutor(max_workers=6) as ex:
             res = list(ex.map(lambda s: (s, scenario_crash(ctx, exe, s)), cspecs))
         lefts = {}
         for s, (fails, fct) in res:
-            ctx.count(("crash", s["phase"], s["n"]))
+            ctx.count(("crash", s["phase"], s["sc"], s["n"]))
             dist["crash_" + s["phase"]] = dist.get("crash_" + s["phase"], 0) + 1
-            lefts["%s#%s" % (s["phase"], s["n"])] = "".join(n[0] if v else "-" for n, v in sorted(fct.get("left", {}).items()))
+            lefts["%s:%s#%s" % (s["phase"], s["sc"], s["n"])] = ",".join(n for n, v in sorted(fct.get("left", {}).items()) if v)
             if fails:
                 sp = {k: v for k, v in s.items() if k != "tag"}
                 concrete.append((fails[0], {"scenario": "crash", "spec": sp, "all_failures": fails,
-                                            "how": "strace -f -e inject=%s:signal=KILL:when=N munged -F ...; then "
-                                                   "munged (no --force) on the same paths" % INJECT_SET}))
-        ctx.cov["files_left_at_kill_point(l=lock,p=pid,s=sock/seed)"] = lefts
+                                            "how": "strace -f -e inject=<sc>:signal=KILL:when=<n> munged -F ... "
+                                                   "(SIGTERM once serving for a shutdown point); then munged "
+                                                   "(no --force) on the same paths"}))
+        ctx.cov["files_left_at_kill_point"] = lefts
         ctx.log("crash points done: %d kill points, %d with failures" % (len(cspecs), sum(1 for _, (f, _) in res if f)))
     # ---- finding F-C15-unlink (thorough, or when replaying it)
     if (ctx.thorough and replay is None and not os.environ.get("VERIF_C15_SKIP_FINDING")) or \
